@@ -236,24 +236,6 @@ func (h *harness) bubble() (res result) {
 	nonTrivial := false
 	start := func(i int) {
 		op := c.Ops[i]
-		// exclusions by construction (only for signatures recorded as known findings)
-		skip := ""
-		h.mu.Lock()
-		switch {
-		case op.K == kAdd && h.closeStartT > 0 && known(sigAddAfterClose):
-			skip = sigAddAfterClose
-		case op.K == kTryRm && h.inflight[op.id()] > 0 && known(sigTryRmLoading):
-			skip = sigTryRmLoading
-		}
-		if skip != "" {
-			h.excluded = skip
-			h.results[i] = "skipped (known finding " + skip + ")"
-		}
-		h.mu.Unlock()
-		if skip != "" {
-			ctl.Go(i, func() {})
-			return
-		}
 		ctx := context.WithValue(root, opKey{}, i)
 		var cancel context.CancelFunc
 		var withdraw func()
@@ -347,9 +329,6 @@ func (h *harness) bubble() (res result) {
 	ops := ctl.Ops()
 	for i, st := range ops {
 		if st.Panic != nil {
-			if h.excusedPanic(i, st) {
-				continue
-			}
 			h.violation("op%d %s panicked: %v\n%s", i, c.Ops[i], st.Panic, trimStack(st.PanicStk))
 		}
 	}
@@ -430,8 +409,6 @@ func (h *harness) bubble() (res result) {
 }
 
 type opKey struct{}
-
-func (h *harness) excusedPanic(i int, st sched.OpState) bool { return false }
 
 func trimStack(s string) string {
 	var keep []string
